@@ -185,6 +185,18 @@ def specCtx (root : Doc) : SpecCtx Float where
   realBits := fun r => r.toBits.toNat
   fmtReal := fun _ => [63]
 
+mutual
+partial def tagTextArith : Tag Float → Bool
+  | .math ex _ _ => (climb ex).textArith
+  | .svar sub _ _ _ => tagsTextArith sub
+  | .iif cs sub _ => (climb cs).textArith || tagsTextArith sub
+  | .loop sub _ => tagsTextArith sub
+  | .ifT cases _ _ => cases.any (fun c => match c with
+      | .mk cs sub _ _ => (!cs.isEmpty && (climb cs).textArith) || tagsTextArith sub)
+  | _ => false
+partial def tagsTextArith (l : List (Tag Float)) : Bool := l.any tagTextArith
+end
+
 def handle (op : String) : List String → String
   | [_w, ds, us] =>
     if op == "tplrender" then
@@ -223,6 +235,15 @@ def handle (op : String) : List String → String
         match parse scanCfg u with
         | .error e => showFault e
         | .ok tags => "T " ++ showTags tags
+      | none => "bad-op"
+    else if op == "tplta" then
+      -- does any expression of the tag tree put a text operand under an arithmetic operator
+      -- (outside the modelled domain of C04, see `Tree.textArith`)?
+      match parseNats us with
+      | some u =>
+        match parse scanCfg u with
+        | .error e => showFault e
+        | .ok tags => "A " ++ showBool (tagsTextArith tags)
       | none => "bad-op"
     else if op == "tplwf" then
       -- the decidable well-formedness predicate of `Model/Tmpl/WF.lean` on what `parse` returns
